@@ -13,6 +13,20 @@ E2 = "explicit-state search over operation histories of the real objects against
 E3 = "bounded-exhaustive input/configuration enumeration against a reference model (depth-1 model checking)"
 
 CHECKS = {
+    "C05": dict(
+        engine="E3-enum + E2-hist",
+        category="exploration",
+        technique=E3 + "; all ordered pairs (thorough: + triples) of packet decodes for order independence",
+        text="The language of each of the 240 verb/code payload regexes is enumerated structurally (every structural variant x <=1 class-position "
+        "deviation over the whole class, <=2 for short payloads, + 7F/FF sentinels) under several address shapes: every packet that decodes must be "
+        "JSON round-trippable, decode identically again / with the clock 18 months on / after clearing every lru_cache, report the index its frame "
+        "carries, keep ratios in 0..1 and temperatures in the wire range. All arrays of length 1..3 over an element domain and all one-element "
+        "deviations of lengths 4..8 for the 7 array codes decode to the list of their elements. All ordered pairs of 300 (thorough 1500) representative "
+        "packets: decode(B) after decode(A) equals decode(B) alone.",
+        design_ref="4/C05, 3",
+        note="Index rule: zone/domain/dhw/ufh/hvac idx = first byte of the (element's) payload, log_idx/msg_id = third byte; 0005/000C/0404/1FC9/2411 "
+        "indexes are not compared. Ratio/temperature key sets are listed in the check.",
+    ),
     "C10": dict(
         engine="E3-enum",
         category="exploration",
